@@ -32,9 +32,11 @@ pub fn batch_cfg(prop: &str, tier: Tier, seed: u64) -> BatchCfg {
         extra_env: Vec::new(),
         crashes_are_violations: true,
         variants: Vec::new(),
+        expected_probes: Vec::new(),
     };
     match prop {
         "C20" => {
+            cfg.expected_probes = vec!["same_name_two_versions".into(), "versioned_plus_unversioned".into(), "error_with_inflight_downloads".into(), "completion_order_reversed".into(), "first_completed_is_last_requested".into(), "handover_disk_and_registry_mixed".into(), "fetch_error".into(), "download_error".into(), "content_lost".into(), "task_abort".into(), "slow_node".into(), "dup_poll".into()];
             cfg.runs = if quick { 100_000 } else { 10_000_000 };
             cfg.chunk = if quick { 500 } else { 5000 };
             cfg.sample_every = cfg.runs / 4;
@@ -50,6 +52,7 @@ pub fn batch_cfg(prop: &str, tier: Tier, seed: u64) -> BatchCfg {
             });
         }
         "C16" => {
+            cfg.expected_probes = vec!["base_after_>=2_dependants".into(), ">=2_explicit_imports".into(), ">=2_same_rank_instantiations".into(), ">=2_missing_with_names".into(), ">=2_plug_names".into(), ">=2_instantiations".into(), "child_processes".into()];
             cfg.arena_sensitive = true;
             cfg.crashes_are_violations = false;
             cfg.runs = if quick { 4_000 } else { 200_000 };
@@ -68,6 +71,7 @@ pub fn batch_cfg(prop: &str, tier: Tier, seed: u64) -> BatchCfg {
             });
         }
         "C14" => {
+            cfg.expected_probes = vec!["truncate".into(), "bitflip".into(), "zero_range".into(), "dup_range".into(), "delete".into(), "empty_file".into(), "random_bytes".into(), "dir_in_place_of_file".into(), "core_module_in_place_of_component".into(), "splice_from_other_file".into(), "swap_files".into(), "invalid_utf8".into(), "insert_multibyte".into(), "ok_outputs".into(), "diagnostics_rendered".into()];
             cfg.runs = c14::sampled_runs(tier) + c14::enum_runs(tier);
             cfg.chunk = if quick { 500 } else { 5000 };
             cfg.sample_every = cfg.runs / 5;
@@ -85,6 +89,7 @@ pub fn batch_cfg(prop: &str, tier: Tier, seed: u64) -> BatchCfg {
             });
         }
         "C18" => {
+            cfg.expected_probes = vec!["garbage_file".into(), "dangling_override".into(), "dir_in_place_of_file".into(), "invalid_wit".into(), "empty_dir".into(), "invalid_text".into(), "binary_in_text_file".into(), "decoy_at_set_extension_path".into(), "enumerated_cells".into()];
             cfg.variants = vec!["none".into(), "wit".into(), "full".into()];
             // every single-key decision-table cell in every build, then sampled multi-key runs
             cfg.runs = c18::CELLS_PER_BUILD * c18::BUILDS + if quick { 30_000 } else { 3_000_000 };
@@ -103,6 +108,7 @@ pub fn batch_cfg(prop: &str, tier: Tier, seed: u64) -> BatchCfg {
             });
         }
         "C19" => {
+            cfg.expected_probes = vec!["stage:compose:success".into(), "stage:compose:parse".into(), "stage:compose:package-lookup".into(), "stage:compose:resolution".into(), "stage:compose:encoding".into(), "stage:compose:read-source".into(), "stage:plug:success".into(), "stage:plug:plug".into(), "stage:plug:decode".into(), "stage:parse:success".into(), "stage:parse:parse".into(), "stage:targets:success".into(), "stage:targets:verdict".into(), "stage:targets:world".into(), "text_outputs_assembled".into()];
             // a run whose in-process reference dies (stack overflow on these bytes) is C14's
             // subject, like a child that dies on a signal: recorded, not judged
             cfg.crashes_are_violations = false;
